@@ -25,8 +25,9 @@ Fixpoint concat_dash (fuel : nat) (lines : list text) : res (list text) :=
 
 (* line.rstrip().split(" ") without the empty fields *)
 Definition tokenize (line : text) : list text := filter nonempty (split_on (is_code 32%N) (rstrip line)).
+(* only the lines after the three header lines and the version line can be continued *)
 Definition tokenize_lines (lines : list text) : res (list (list text)) :=
-  do ls <- concat_dash (length lines) lines; ok (map tokenize ls).
+  do ls <- concat_dash (length lines) (skipn 4%nat lines); ok (map tokenize (firstn 4%nat lines ++ ls)).
 
 Fixpoint nth_line (n : nat) (l : list (list text)) : res (list text) :=
   match n, l with
